@@ -240,6 +240,14 @@ def run_decode(spec):
     if got != want:
         vs.append(V("as_text-chunking", "charset=%s" % eff,
                     "as_text() over chunks %r gives %r, whole decode gives %r" % (chunks, got, want)))
+    if want is not UnicodeError:
+        # as_text() is computed from what the source yields at that time: nothing is remembered from an earlier call
+        src = [list(chunks)]
+        lazy = Content(ContentType("text", "plain", dict(params)), lambda: list(src[0]))
+        first = lazy.as_text()
+        src[0] = []
+        if first != want or lazy.as_text() != "" or "".join(lazy.iter_text()) != "":
+            vs.append(V("as_text-chunking", "as_text-remembered", "after its source became empty a text content still gives %r" % (lazy.as_text(),)))
     try:
         got2 = "".join(c.iter_text())
     except UnicodeError:
@@ -491,6 +499,14 @@ def run_stream(spec):
             again = b"".join(c.iter_bytes())
             if again != want:
                 vs.append(V("stream-bytes", "file-second-iteration", "second iter_bytes gives %r, want %r" % (again, want)))
+            # a lazily read file is read when it is iterated: what the file holds *now*
+            later = spec["mutate"] + data
+            with open(path, "wb") as f:
+                f.write(later)
+            start_l = _model_start(len(later), 0, spec["offset"], spec["whence"])
+            third = b"".join(c.iter_bytes())
+            if third != later[start_l:]:
+                vs.append(V("stream-bytes", "file-stale-after-change", "the file changed to %r, a lazy content still yields %r (want %r)" % (later, third, later[start_l:])))
     got = b"".join(chunks)
     if got != want:
         vs.append(V("stream-bytes", tag, "got %r, want data[%d:]=%r (spec offset=%r whence=%r prepos=%r)" % (
